@@ -855,16 +855,14 @@ class C05(Property):
         if obs.get('env'):
             st['env-skipped'] = st.get('env-skipped', 0) + 1
             return None         # the scratch file system cannot represent the initial state (e.g. drops the sticky bit)
-        if o['out'].startswith('exc:'):
-            # an exception that is neither the block's own nor an OSError must have a cause the harness knows:
-            # an injected exception of that class, or Python refusing I/O on a file object the BLOCK closed
-            # / refusing unbuffered text mode
-            name = o['out'][4:]
-            explained = set(o.get('fault_cls', []))
-            if o.get('closed_by_body') or (case['txt'] and case.get('buf') == 0):
-                explained.add('ValueError')
-            if name not in explained:
-                return Failure('unexpected-exception', 'atomic_save raised %s (neither the block\'s exception nor an OSError nor an injected failure)' % name)
+        # which exception class reaches the caller is not constrained by the statement ("the caller receives an exception");
+        # what IS required is that a save with nothing in its way - no injected failure, the block neither raises nor closes
+        # the file itself, no refusal, no pre-existing part file, a configuration Python accepts - completes
+        if (o['out'] != 'ok' and not case['raises'] and not o.get('faults') and not o.get('appear_at')
+                and (case['ow'] or case['dest'] is None) and (case['part'] is None or case['owp'])
+                and not o.get('closed_by_body') and not (case['txt'] and case.get('buf') == 0) and not case.get('chdir')):
+            return Failure('unexpected-exception', 'a save with nothing in its way (no fault, no refusal, the block ended normally) '
+                           'raised %s' % o['out'])
         w = obs.get('warm')
         if w is not None:
             # only generated with rm_part_on_exc on and no part file: the warm-up save (block raises) must change nothing
